@@ -131,4 +131,136 @@ theorem spec_while_after {n : Nat} {c : Expr} {body : Option (List Stmt)} {k : N
     · exact (hr rfl).elim
   | _ => simp [whileS, bind, hstep]
 
+/-! ## loop signals on the spec side: `.brk` / `.cont` never leave a body -/
+
+def isLoopSignal {α} : R ν α → Bool
+  | .brk | .cont => true
+  | _ => false
+
+/-- `m` never ends with `.brk` / `.cont` -/
+def SNoSig {α} (m : SM ν α) : Prop := ∀ s r s', m s = (r, s') → isLoopSignal r = false
+
+theorem SNoSig.pure {α} (a : α) : SNoSig (Pure.pure a : SM ν α) := by
+  intro s r s' h; cases h; rfl
+
+theorem SNoSig.sfail {α} {r : R ν α} (h : isLoopSignal r = false) : SNoSig (Spec.sfail r : SM ν α) := by
+  intro s r' s' h'; cases h'; exact h
+
+theorem SNoSig.modS (f : SState ν → SState ν) : SNoSig (modS f) := by intro s r s' h; cases h; rfl
+theorem SNoSig.getS : SNoSig (getS : SM ν (SState ν)) := by intro s r s' h; cases h; rfl
+theorem SNoSig.fault {α} (c : Nat) : SNoSig (Spec.fault c : SM ν α) := SNoSig.sfail rfl
+theorem SNoSig.unspec {α} : SNoSig (Spec.unspec : SM ν α) := SNoSig.sfail rfl
+
+theorem SNoSig.bind {α β} {m : SM ν α} {f : α → SM ν β} (hm : SNoSig m) (hf : ∀ a, SNoSig (f a)) :
+    SNoSig (m >>= f) := by
+  intro s r s' h
+  simp only [Bind.bind] at h
+  rcases hms : m s with ⟨r1, s1⟩
+  rw [hms] at h
+  have h1 := hm _ _ _ hms
+  cases r1 <;> first | exact hf _ _ _ _ h | (cases h; first | rfl | exact h1)
+
+/-- `catchR m k`: the handler decides -/
+theorem SNoSig.catchR {α β} (m : SM ν α) {k : R ν α → SM ν β} (hk : ∀ r, SNoSig (k r)) : SNoSig (Spec.catchR m k) := by
+  intro s r s' h
+  simp only [Spec.catchR] at h
+  exact hk _ _ _ _ h
+
+/-- … or `m` and the handler on outcomes that are not loop signals -/
+theorem SNoSig.catchR' {α β} {m : SM ν α} {k : R ν α → SM ν β} (hm : SNoSig m)
+    (hk : ∀ r, isLoopSignal r = false → SNoSig (k r)) : SNoSig (Spec.catchR m k) := by
+  intro s r s' h
+  simp only [Spec.catchR] at h
+  rcases hms : m s with ⟨r1, s1⟩
+  rw [hms] at h
+  exact hk r1 (hm _ _ _ hms) _ _ _ h
+
+theorem SNoSig.forM {α} {f : α → SM ν PUnit} (hf : ∀ a, SNoSig (f a)) : ∀ xs : List α, SNoSig (xs.forM f)
+  | [] => SNoSig.pure _
+  | x :: xs => by
+    have : (x :: xs).forM f = (do f x; xs.forM f) := rfl
+    rw [this]
+    exact SNoSig.bind (hf x) fun _ => SNoSig.forM hf xs
+
+theorem SNoSig.firstS {α β} {f : α → SM ν (Option β)} {d : SM ν β} (hf : ∀ a, SNoSig (f a)) (hd : SNoSig d) :
+    ∀ xs : List α, SNoSig (Spec.firstS f d xs)
+  | [] => hd
+  | x :: xs => by
+    unfold Spec.firstS
+    refine SNoSig.bind (hf x) fun o => ?_
+    split
+    · exact SNoSig.pure _
+    · exact SNoSig.firstS hf hd xs
+
+theorem SNoSig.ite {α} {c : Prop} [Decidable c] {a b : SM ν α} (ha : SNoSig a) (hb : SNoSig b) :
+    SNoSig (if c then a else b) := by
+  split <;> assumption
+
+theorem SNoSig.withBlock {α} {m : SM ν α} (hm : SNoSig m) : SNoSig (Spec.withBlock m) := by
+  unfold Spec.withBlock
+  exact SNoSig.bind (SNoSig.modS _) fun _ => SNoSig.catchR' hm fun r hr =>
+    SNoSig.bind (SNoSig.modS _) fun _ => SNoSig.sfail hr
+
+theorem SNoSig.classifyId (lit : String) : SNoSig (classifyId lit : SM ν (IdK ν)) := by
+  unfold Spec.classifyId; split
+  · exact SNoSig.sfail rfl
+  · exact SNoSig.pure _
+  · exact SNoSig.pure _
+
+theorem SNoSig.idName (lit : String) : SNoSig (idName lit : SM ν String) := by
+  unfold Spec.idName
+  refine SNoSig.bind (SNoSig.classifyId lit) fun k => ?_
+  split
+  · exact SNoSig.pure _
+  · exact SNoSig.sfail rfl
+
+theorem SNoSig.idNameOpt (i : Option ZnVerif.Model.Ident) : SNoSig (idNameOpt i : SM ν String) := by
+  unfold Spec.idNameOpt; split
+  · exact SNoSig.idName _
+  · exact SNoSig.unspec
+
+theorem SNoSig.declare (nm : String) (v : SVal ν) (c : Bool) : SNoSig (declare nm v c : SM ν Unit) := by
+  unfold Spec.declare
+  split
+  · exact SNoSig.fault _
+  · refine SNoSig.bind SNoSig.getS fun s => ?_
+    split
+    · exact SNoSig.fault _
+    · split
+      · exact SNoSig.fault _
+      · exact SNoSig.modS _
+
+/-- the outcome of a body (method, constructor, program) is never `.brk` / `.cont` -/
+theorem SNoSig.callBody (n : Nat) (blk : Option ZnVerif.Model.ExecBlock) (args : List (SVal ν)) (this : Option (SVal ν)) :
+    SNoSig (callBody n blk args this) := by
+  cases n with
+  | zero => simp only [Spec.callBody]; exact SNoSig.sfail rfl
+  | succ n =>
+    cases blk with
+    | none => simp only [Spec.callBody]; exact SNoSig.unspec
+    | some b =>
+      obtain ⟨inputs, body, catches⟩ := b
+      simp only [Spec.callBody]
+      refine SNoSig.bind (SNoSig.modS _) fun _ => SNoSig.catchR' (SNoSig.withBlock ?_) fun r hr =>
+        SNoSig.bind (SNoSig.modS _) fun _ => SNoSig.sfail hr
+      split
+      · exact SNoSig.fault _
+      · refine SNoSig.bind (SNoSig.forM (fun p => SNoSig.bind (SNoSig.idName _) fun _ => SNoSig.declare _ _ _) _) fun _ => ?_
+        refine SNoSig.catchR' (SNoSig.catchR _ fun r => ?_) fun r hr => ?_
+        · cases r <;> exact SNoSig.sfail rfl
+        · cases r with
+          | ok v => exact SNoSig.pure _
+          | ret v => exact SNoSig.pure _
+          | raise ex =>
+            refine SNoSig.bind SNoSig.getS fun s => SNoSig.firstS (fun c => ?_) (SNoSig.sfail (ν := ν) rfl) _
+            refine SNoSig.bind (SNoSig.idNameOpt _) fun hn => SNoSig.ite ?_ (SNoSig.pure _)
+            refine SNoSig.bind (SNoSig.modS _) fun _ => SNoSig.bind (SNoSig.catchR _ fun hr => ?_) fun _ => SNoSig.pure _
+            refine SNoSig.bind (SNoSig.modS _) fun _ => ?_
+            cases hr <;> first | exact SNoSig.pure _ | exact SNoSig.sfail rfl
+          | brk => cases hr
+          | cont => cases hr
+          | fatal c => exact SNoSig.sfail rfl
+          | unspecified => exact SNoSig.sfail rfl
+          | fuel => exact SNoSig.sfail rfl
+
 end ZnVerif.Proofs.ControlFlowSpec
